@@ -381,7 +381,7 @@ func Main(props ...*Prop) {
 			ran++
 			// A race-detector build never gives shadow memory back (dkvmon: ~20 MB per case): when the process has
 			// grown past the limit it stops here and the driver continues the shard in a fresh process.
-			if *out != "" && *one < 0 && ran%8 == 0 && (rssMB() > maxRSSMB() || fdCount() > maxFDs()) {
+			if *out != "" && *one < 0 && (rssMB() > maxRSSMB() || fdCount() > maxFDs()) {
 				os.Remove(*out + ".cur")
 				os.WriteFile(*out+".next", []byte(strconv.Itoa(i+1)), 0o644)
 				return
